@@ -20,7 +20,7 @@ def run(rep, tier):
     lib.proof_gate(rep, PROP, THEOREMS, IMPORTS)
     n = 500 if tier == "quick" else 200000
     n = rep.scale(n)
-    agg = runner.correspondence(rep, prop=PROP, mod_name="harness.mm", driver_kind="mmap", ncases=n,
+    agg = runner.correspondence(rep, prop=PROP, mod_name="harness.mm", legal_only=True, driver_kind="mmap", ncases=n,
                                 extra=("names",), nontrivial=nontrivial, oracle_props={"C18"},
                                 sample_fmt=sample, mask_model=mask_names)
     rep.coverage.update(agg)
@@ -28,7 +28,7 @@ def run(rep, tier):
     # resources / named windows / anonymous windows over all names of length <= 2 on a small alphabet
     from .. import mm
     k = 2 if tier == "quick" else 3
-    ex = runner.correspondence(rep, prop=PROP, mod_name="harness.mm", driver_kind="mmap", ncases=mm.exh_names_count(k),
+    ex = runner.correspondence(rep, prop=PROP, mod_name="harness.mm", legal_only=True, driver_kind="mmap", ncases=mm.exh_names_count(k),
                                extra=("exhnames", k), oracle_props={"C18"}, mask_model=mask_names)
     rep.coverage["bounded_exhaustive"] = {"sequence_length": k, "names": len(mm.exh_names(k)), "cases": ex["evaluations"],
                                           "correspondence_diffs": ex["correspondence_diffs"], "oracle_failures": ex["oracle_failures"],
